@@ -35,7 +35,8 @@ public:
     }
     else
     {
-      Memory::copy(hashKey, key, keySize);
+      if(keySize)
+        Memory::copy(hashKey, key, keySize);
       if(keySize < blockSize)
         Memory::zero(hashKey + keySize, blockSize - keySize);
     }
